@@ -1,0 +1,45 @@
+package compiler
+
+import (
+	"fmt"
+
+	"github.com/grafana/cog/internal/ast"
+)
+
+var _ Pass = (*ObjectIdentifiers)(nil)
+
+// ObjectIdentifiers checks that the objects of every schema can be told apart
+// in the target language.
+//
+// `Identifier` gives the identifier that the language writes for an object
+// (without it, nothing is checked). The conversions between naming styles are
+// not injective: `pet_kind` and `PetKind`, `my-type` and `myType` can end up
+// with the same identifier. One of the two declarations would take the place
+// of the other: the pass reports them instead.
+type ObjectIdentifiers struct {
+	Language   string
+	Identifier func(object ast.Object) string
+}
+
+func (pass *ObjectIdentifiers) Process(schemas []*ast.Schema) ([]*ast.Schema, error) {
+	if pass.Identifier == nil {
+		return schemas, nil
+	}
+
+	for _, schema := range schemas {
+		// identifier → name of the object it was given to
+		identifiers := make(map[string]string, schema.Objects.Len())
+
+		for _, object := range schema.Objects.Values() {
+			identifier := pass.Identifier(object)
+
+			if other, taken := identifiers[identifier]; taken {
+				return nil, fmt.Errorf("%s: the objects '%s' and '%s' are both named '%s' in %s: one of them has to be renamed", schema.Package, other, object.Name, identifier, pass.Language)
+			}
+
+			identifiers[identifier] = object.Name
+		}
+	}
+
+	return schemas, nil
+}
